@@ -19,7 +19,7 @@ def tm(k, v, ck='iri', tt=''):
 
 def gen_null_case(rng, kind=None):
     kind = kind or rng.choice(KINDS)
-    cols = ['id', 'c1', 'c2', 'c3']
+    cols = ['id', 'c1', 'c2', 'c3'] if not (kind == 'json' and rng.random() < 0.5) else ['id', 'n.c1', 'n.c2', 'm.k.c3']
     n = rng.choice([1, 2, 3, 4, 6])
     rows = [[str(i + 1)] + [(None if rng.random() < 0.3 else rng.choice(VALS)) for _ in cols[1:]] for i in range(n)]
     src = {'key': 'S0', 'kind': kind, 'cols': cols, 'rows': rows}
@@ -72,6 +72,21 @@ def run(ctx, res):
                 'implementation against the Engine model (reader behaviour per kind) and the Spec; plus a scan of every output term for None / nan / <NA> / NaT not present in the data; '
                 'distinct = distinct case; non-trivial = at least one referenced NULL and one statement')
     cases = [gen_null_case(ctx.rng) for _ in range(ctx.scale(200, 5000))]
+    # NULL join keys on both sides (a NULL never matches, not even another NULL), over several source kinds
+    from .c07 import gen_join_case
+    for _ in range(ctx.scale(60, 1500)):
+        c = gen_join_case(ctx.rng)
+        k = ctx.rng.choice(['csv', 'csv', 'json', 'parquet', 'sqlquery', 'sqltable', 'xml'])
+        for s in c['sources']:
+            s['kind'] = k
+            s['cols'] = [x for x in s['cols']]
+            for r in s['rows']:
+                for i in range(len(r)):
+                    if ctx.rng.random() < 0.2:
+                        r[i] = None
+                    elif k == 'xml' and isinstance(r[i], str) and (r[i].strip() != r[i] or '\t' in r[i]):
+                        r[i] = 'w'
+        cases.append(c)
     family.run_family(ctx, res, cases, features)
     # second oracle on the same cases, implementation only: a null word that is not in the data must not appear
     batch = family.Batch(ctx)
